@@ -204,6 +204,48 @@ pub fn consume_all(dict: &Dict, ml: &MList, list_cost: bool) -> usize {
     acc
 }
 
+/// Input class of known finding F7 (the cumulative path cost is an i32): the largest step the lattice can take
+/// (largest |word cost| + largest |connection cost|) times an upper bound of the number of tokens of the text
+/// (characters of the normalised text: at most 18 per input character, at most 65,536) reaches 2^31.
+/// Ordinary costs (a few thousand) never get there; dictionaries with costs at the ends of i16 do for texts of
+/// tens of thousands of tokens.
+pub fn f7_class(dic: &DicModel, cfg: &CfgModel, text: &str) -> bool {
+    use crate::model::cfg::OovPlugin;
+    let mut w: i64 = 0;
+    for d in 0..dic.num_dics() {
+        for e in dic.dic(d) {
+            w = w.max((e.cost as i64).abs());
+        }
+    }
+    for p in &cfg.oov {
+        match p {
+            OovPlugin::Simple { cost, .. } | OovPlugin::Regex { cost, .. } => w = w.max(cost.abs()),
+            OovPlugin::Mecab { unkdef, .. } => {
+                for line in crate::model::cfg::read_src("unk.def", unkdef).lines() {
+                    if let Some(c) = line.split(',').nth(3).and_then(|x| x.trim().parse::<i64>().ok()) {
+                        w = w.max(c.abs());
+                    }
+                }
+            }
+        }
+    }
+    let mut c: i64 = dic.matrix.lines.iter().map(|l| (l.2 as i64).abs()).max().unwrap_or(0);
+    if cfg.inhibit.as_ref().map(|v| !v.is_empty()).unwrap_or(false) {
+        c = c.max(i16::MAX as i64);
+    }
+    let tokens = (text.chars().count() as i64 * 18 + 2).min(65_536);
+    (w + c) * tokens >= i32::MAX as i64
+}
+
+/// marks the report as excluded (class F7) and returns true if `text` must not be analysed with this world
+pub fn f7_guard(rep: &mut crate::engine::Report, dic: &DicModel, cfg: &CfgModel, text: &str, strict: bool) -> bool {
+    if !strict && f7_class(dic, cfg, text) {
+        rep.excluded = Some("F7");
+        return true;
+    }
+    false
+}
+
 /// input class of known finding F12 (JoinNumeric never terminates): numeral joining is configured
 /// and some dictionary word made only of NUMERIC (or only of KANJINUMERIC) characters has a
 /// normalised form that contains ',' or '.'
